@@ -45,6 +45,20 @@ ASSUMPTIONS = [
     'one hand-written matcher per pattern text (an unknown pattern text fails closed)',
     'concurrent stream: the interleaving of the threads is the interpreter\'s (barrier per burst, sys.setswitchinterval(1e-6)); '
     'the oracle is the serial parse of the same text in the same process; a replay repeats the recorded burst 25 times',
+    'translator tie of the semantic actions (bld-sem; group semantics: harness/vf/src_semantics.py -> Gen/SrcSemantics.v, '
+    'Proofs/SrcSemantics.v, C06_source_*): every function of the live class BQLSemantics, parser.parse and ParseError.__init__ are '
+    'translated on every run (rules S1-S7 on top of ApiTranslator: a bare object() sentinel as an opaque reference compared '
+    'with `is`; `raise X from y` as `raise X`; an exception in tail position as the returned marker ("$raised", X) so that the '
+    'payload is part of the result; `except E as x` binds x to the primitive "caught:E" of the locals the try body reads '
+    '(PyMini is deterministic); C(args) for a class as the record ("$new", C, args); E[k] on an Enum; f(**d)). TRUSTED in '
+    'Model/PrimsSemantics.v: the lexical classes are the patterns of bql.ebnf written with Lexer.v\'s scanners (ASCII digits); on '
+    'a text of its class int() is Lexer.digits_val, decimal.Decimal() is PegActions.dec_of (all digits, exponent = - fraction '
+    'digits, no context), strptime(.., "%Y-%m-%d").date() is Dates.mk_date of the three digit groups else ValueError, str.lower is '
+    'Lexer.lower on ASCII, rstrip, s[1:-1] is PyMini\'s slice; outside the class the primitives are Stuck (no theorem); TatSu: '
+    'BQLParser().parse(text, semantics=BQLSemantics()) on NEWLY built objects is an oracle of the text (any other receiver: '
+    'Stuck), the raised exception carries tokenizer.text = the text given, item, pos; line_info().line and str(exc) are '
+    'uninterpreted; that a class call yields a fresh object each time is Python\'s; how TatSu dispatches a rule to the method of '
+    'its name (else _default) with the rule parameters is TatSu\'s (C06_source_dispatch ties the method NAMES of the live class)',
 ]
 EXTRA_TARGETS = ['Model/PegActions.vo']
 
@@ -1108,7 +1122,11 @@ Definition grammar : grammar_t :=
 def generate():
     term, nrules, _ = grammar_term()
     core.write_if_changed(os.path.join(core.COQ, 'Gen', 'Grammar.v'), GEN_HEADER + term + '.\n')
-    return {'grammar_rules_introspected': nrules}
+    out = {'grammar_rules_introspected': nrules}
+    # bld-sem: translator tie of the semantic actions (BQLSemantics, parse) -> Gen/SrcSemantics.v; fails closed
+    from . import gen_src
+    out.update(gen_src.generate('semantics'))
+    return out
 
 
 # --- stream "text-to-rows": statement TEXT -> lex -> parse -> to_cstmt -> compile -> lower -> exec, all inside Coq ----
